@@ -578,7 +578,8 @@ def finish(pid, cfg, tier, seed, t0, tally, violations, known_hits, p_ok, theore
     cov.update(coverage_extra)
     ev = {
         "property_id": pid, "tier": tier, "seed": seed, "level": level, "coverage": cov,
-        "assumptions": assumptions + ["64-bit usize target", "Rust integer semantics modelled on unbounded Int (DESIGN §1.4)"],
+        "assumptions": assumptions + ["64-bit usize target", "Rust integer semantics modelled on unbounded Int (DESIGN §1.4)",
+                                      "tools/rs2lean.py (Rust-subset translator) and its modelled externs: parse_int, from_be/ne_bytes, core::fmt padding, str methods, tuple partial_cmp (DESIGN §13, §12.8)"],
         "wall_s": round(time.time() - t0, 2), "violations": len(violations),
     }
     os.makedirs(EVID, exist_ok=True)
